@@ -26,6 +26,7 @@ VersionSegs == {"v1", "v1beta1", "v1p1beta1", "v2alpha"}
 \* control parameters get one trailing "_")
 FileTable == { [proto |-> "lib",       mod |-> "lib"],
                [proto |-> "lib.admin", mod |-> "lib_admin"],
+               [proto |-> "lib_admin", mod |-> "lib_admin"],     \* sanitises to the same module as lib.admin: the later file gets a trailing "_"
                [proto |-> "import",    mod |-> "import_"],
                [proto |-> "metadata",  mod |-> "metadata_"],
                [proto |-> "request",   mod |-> "request_"],
@@ -43,6 +44,8 @@ OptItems == { "transport=grpc", "transport=rest", "transport=grpc+rest", "metada
               "autogen-snippets=false", "rest-numeric-enums", "foo=bar", "foo=a=b", "unknownflag",
               "python-gapic-name=book_store", "python-gapic-namespace=Big.Corp",
               "python-gapic-bogus=1", "transport=rest#2" }   \* "#2": a second, later transport item
+\* The alternative (Ads) template set is only supported together with its naming (old-naming also switches the
+\* snippets off, which the Ads sample template cannot render): the two items always travel together (scope "ads").
 Has(seq, x) == \E i \in 1..Len(seq) : seq[i] = x
 FirstTransport(items) ==
   LET idx == {i \in 1..Len(items) : items[i] \in {"transport=grpc", "transport=rest", "transport=grpc+rest", "transport=rest#2"}}
@@ -61,8 +64,12 @@ None == [none |-> TRUE]
 Pairs(S) == {p \in S \X S : p[1] # p[2]}
 Singles(S) == {<<x>> : x \in S}
 
+Twin1 == [proto |-> "lib.admin", mod |-> "lib_admin"]
+Twin2 == [proto |-> "lib_admin", mod |-> "lib_admin"]
 FilesChoices ==
-  CASE Scope = "shapes"  -> Singles(FileTable) \cup {p \in Pairs(FileTable) : p[1].proto = "lib"}
+  CASE Scope = "twins"   -> {<<Twin1, Twin2>>, <<Twin2, Twin1>>}
+    [] Scope = "ads"     -> {<<[proto |-> "lib", mod |-> "lib"]>>, <<[proto |-> "lib", mod |-> "lib"], [proto |-> "lib.admin", mod |-> "lib_admin"]>>}
+    [] Scope = "shapes"  -> Singles(FileTable \ {Twin2}) \cup {p \in Pairs(FileTable \ {Twin2}) : p[1].proto = "lib"}
     [] Scope = "options" -> {<<[proto |-> "lib", mod |-> "lib"]>>}
     [] OTHER             -> {<<[proto |-> "lib", mod |-> "lib"]>>, <<[proto |-> "lib", mod |-> "lib"], [proto |-> "import", mod |-> "import_"]>>}
 SvcChoices ==
@@ -72,15 +79,20 @@ SvcChoices ==
                             \cup {<<[camel |-> "Library", snake |-> "library"], [camel |-> "BookAdmin", snake |-> "book_admin"]>>,
                                   <<[camel |-> "BookAdmin", snake |-> "book_admin"], [camel |-> "Library", snake |-> "library"]>>}
 KindChoices ==
-  CASE Scope = "shapes"  -> Singles(MethodKinds) \cup {<<"unary", k>> : k \in MethodKinds \ {"unary"}}
+  CASE Scope = "ads"     -> {<<"unary">>, <<"unary", "paged">>}
+    [] Scope = "shapes"  -> Singles(MethodKinds) \cup {<<"unary", k>> : k \in MethodKinds \ {"unary"}}
     [] Scope = "options" -> {<<"unary", "paged">>}
     [] OTHER             -> {<<"unary">>, <<"paged", "lro">>}
 PkgChoices ==
   CASE Scope = "shapes"  -> NsChoices \X {"lib"} \X VerChoices
+    [] Scope = "ads"     -> {<<>>, <<"acme">>, <<"big", "corp">>} \X {"lib"} \X {"", "v1"}
     [] Scope = "options" -> {<<<<"acme">>, "lib", "v1">>}
     [] OTHER             -> {<<<<"acme">>, "lib", "v1">>, <<<<>>, "lib", "">>}
+AdsItems == <<"python-gapic-templates=ads-templates", "old-naming">>
 OptChoices ==
-  CASE Scope = "shapes"  -> {<<"transport=grpc">>, <<"transport=rest", "metadata">>, <<"transport=grpc+rest", "metadata">>,
+  CASE Scope = "ads"     -> {AdsItems, <<"transport=grpc+rest">> \o AdsItems, <<"transport=rest", "metadata">> \o AdsItems,
+                             AdsItems \o <<"foo=bar">>}
+    [] Scope = "shapes"  -> {<<"transport=grpc">>, <<"transport=rest", "metadata">>, <<"transport=grpc+rest", "metadata">>,
                              <<"autogen-snippets=false">>}
     [] Scope = "options" -> {<<>>} \cup Singles(OptItems) \cup Pairs(OptItems)
     [] OTHER             -> {<<>>, <<"transport=rest">>, <<"transport=grpc+rest", "metadata">>}
@@ -90,10 +102,11 @@ OptChoices ==
 \* field named by a reserved word (class)
 ExtraChoices ==
   CASE Scope = "shapes"  -> {"none", "kw", "internal"}
-    [] Scope = "options" -> {"none"}
-    [] OTHER             -> {"none", "kw", "internal", "reserved"}
-Requests == [ pkg : PkgChoices, files : FilesChoices, svcs : SvcChoices, kinds : KindChoices,
-              dep : BOOLEAN, items : OptChoices, extra : ExtraChoices ]
+    [] Scope \in {"options", "twins", "ads"} -> {"none"}
+    [] OTHER             -> {"none", "kw", "internal", "reserved", "xreq"}
+\* "xreq" adds an RPC (Xcheck) whose request message lives in the dependency package (so the dependency file is there)
+Requests == { r \in [ pkg : PkgChoices, files : FilesChoices, svcs : SvcChoices, kinds : KindChoices,
+                      dep : BOOLEAN, items : OptChoices, extra : ExtraChoices ] : r.extra = "xreq" => r.dep }
 
 Init == /\ req \in Requests
         /\ stage = "start" /\ opts = None /\ package = <<>> /\ naming = None /\ protos = <<>>
@@ -107,7 +120,10 @@ ParseOptions ==
   /\ stage = "start"
   /\ opts' = [ transport |-> FirstTransport(req.items),
                metadata  |-> Has(req.items, "metadata") \/ Has(req.items, "metadata=false"),
-               snippets  |-> ~Has(req.items, "autogen-snippets=false"),
+               \* old-naming switches the snippets off (they are not correct for the Ads templates)
+               snippets  |-> ~Has(req.items, "autogen-snippets=false") /\ ~Has(req.items, "old-naming"),
+               ads       |-> Has(req.items, "python-gapic-templates=ads-templates"),
+               old       |-> Has(req.items, "old-naming"),
                numeric   |-> Has(req.items, "rest-numeric-enums"),
                nameOv    |-> IF Has(req.items, "python-gapic-name=book_store") THEN "book_store" ELSE "",
                nsOv      |-> IF Has(req.items, "python-gapic-namespace=Big.Corp") THEN <<"big", "corp">> ELSE <<>>,
@@ -131,13 +147,16 @@ BuildNaming ==
          nm   == IF opts.nameOv # "" THEN opts.nameOv ELSE Last(core)
          ns   == IF opts.hasNsOv THEN opts.nsOv ELSE Front(core)
      IN naming' = [ ns |-> ns, name |-> nm, version |-> ver,
-                    versioned |-> IF ver = "" THEN nm ELSE nm \o "_" \o ver ]
+                    versioned |-> IF ver = "" THEN nm ELSE nm \o (IF opts.old THEN "." ELSE "_") \o ver ]
   /\ stage' = "named"
   /\ UNCHANGED <<req, opts, package, protos, todo, emitted, features>>
 
 LoadProtos ==
   /\ stage = "named"
-  /\ protos' = [i \in 1..Len(req.files) |-> [mod |-> req.files[i].mod, target |-> TRUE]]
+  \* two files whose names sanitise to the same module: files are visited in request order, the later one is disambiguated
+  /\ protos' = [i \in 1..Len(req.files) |->
+                  [mod |-> IF \E j \in 1..(i-1) : req.files[j].mod = req.files[i].mod THEN req.files[i].mod \o "_" ELSE req.files[i].mod,
+                   target |-> TRUE]]
                  \o (IF req.dep THEN <<[mod |-> "dep", target |-> FALSE]>> ELSE <<>>)
   /\ todo' = <<"unversioned", "root", "metadata", "services_init", "services", "types_init", "types", "samples", "other">>
   /\ stage' = "render"
@@ -145,7 +164,10 @@ LoadProtos ==
 
 -----------------------------------------------------------------------------
 (* Rendering.  Root = <ns...>/<name>_<version>                             *)
-Root == naming.ns \o <<naming.versioned>>
+\* The Ads template set lays the library out as <ns...>/<name>/<version>/ (the version directory is
+\* absent for an unversioned package): adjacent empty path variables must not leave empty segments.
+Root == IF opts.ads THEN naming.ns \o <<naming.name>> \o (IF naming.version = "" THEN <<>> ELSE <<naming.version>>)
+        ELSE naming.ns \o <<naming.versioned>>
 URoot == naming.ns \o <<naming.name>>          \* the unversioned convenience package
 Services == Range(req.svcs)
 HasT(t) == Has(opts.transport, t)
@@ -154,15 +176,19 @@ HasPaged == Has(req.kinds, "paged")
 ServiceFiles(s) ==
   LET b == Root \o <<"services", s.snake>>
       t == b \o <<"transports">>
-  IN {b \o <<"__init__.py">>, b \o <<"client.py">>, t \o <<"__init__.py">>, t \o <<"base.py">>, t \o <<"README.rst">>}
-     \cup (IF HasT("grpc") THEN {b \o <<"async_client.py">>, t \o <<"grpc.py">>, t \o <<"grpc_asyncio.py">>} ELSE {})
+  IN {b \o <<"__init__.py">>, b \o <<"client.py">>, t \o <<"__init__.py">>, t \o <<"base.py">>}
+     \cup (IF opts.ads THEN {} ELSE {t \o <<"README.rst">>})
+     \cup (IF HasT("grpc") THEN {t \o <<"grpc.py">>} ELSE {})
+     \cup (IF HasT("grpc") /\ ~opts.ads THEN {b \o <<"async_client.py">>, t \o <<"grpc_asyncio.py">>} ELSE {})   \* the Ads set has no asyncio surface
      \cup (IF HasT("rest") THEN {t \o <<"rest.py">>, t \o <<"rest_base.py">>} ELSE {})
      \cup (IF HasPaged THEN {b \o <<"pagers.py">>} ELSE {})
 
 FamilyFiles(f) ==
-  CASE f = "unversioned"   -> IF naming.version = "" THEN {} ELSE {URoot \o <<"__init__.py">>, URoot \o <<"gapic_version.py">>, URoot \o <<"py.typed">>}
-    [] f = "root"          -> {Root \o <<"__init__.py">>, Root \o <<"gapic_version.py">>, Root \o <<"py.typed">>}
-    [] f = "metadata"      -> IF opts.metadata THEN {Root \o <<"gapic_metadata.json">>} ELSE {}
+  CASE f = "unversioned"   -> IF opts.ads THEN {URoot \o <<"py.typed">>} \cup (IF naming.version = "" THEN {} ELSE {URoot \o <<"__init__.py">>})
+                              ELSE IF naming.version = "" THEN {} ELSE {URoot \o <<"__init__.py">>, URoot \o <<"gapic_version.py">>, URoot \o <<"py.typed">>}
+    [] f = "root"          -> {Root \o <<"__init__.py">>, Root \o <<"gapic_version.py">>} \cup (IF opts.ads THEN {} ELSE {Root \o <<"py.typed">>})
+    \* the Ads gapic_metadata.json template is commented out: it renders empty and empty files are not emitted
+    [] f = "metadata"      -> IF opts.metadata /\ ~opts.ads THEN {Root \o <<"gapic_metadata.json">>} ELSE {}
     [] f = "services_init" -> {Root \o <<"services", "__init__.py">>}
     [] f = "services"      -> UNION {ServiceFiles(s) : s \in Services}
     [] f = "types_init"    -> {Root \o <<"types", "__init__.py">>}
@@ -195,7 +221,7 @@ TypesModules == {n \in Emitted : Under(Root \o <<"types">>, n) /\ Len(n) = Len(R
 ServicePkgs == {SubSeq(n, 1, Len(Root) + 2) : n \in {m \in Emitted : Under(Root \o <<"services">>, m) /\ Len(m) > Len(Root) + 2}}
 TransportFiles == {n \in Emitted : Len(n) = Len(Root) + 4 /\ Under(Root \o <<"services">>, n) /\ n[Len(Root) + 3] = "transports"
                                    /\ Last(n) \in {"grpc.py", "grpc_asyncio.py", "rest.py", "rest_base.py", "rest_asyncio.py"}}
-Registry == (IF HasT("grpc") THEN <<"grpc", "grpc_asyncio">> ELSE <<>>) \o (IF HasT("rest") THEN <<"rest">> ELSE <<>>)
+Registry == (IF HasT("grpc") THEN (IF opts.ads THEN <<"grpc">> ELSE <<"grpc", "grpc_asyncio">>) ELSE <<>>) \o (IF HasT("rest") THEN <<"rest">> ELSE <<>>)
 DefaultTransport == Head(Registry)
 Pagers == {n \in Emitted : Last(n) = "pagers.py"}
 \* gapic_metadata.json: service -> client kind -> client class ; rpc list is checked by the harness from the case
@@ -232,14 +258,17 @@ Known(items) == SelectSeq(items, LAMBDA x : x \notin {"foo=bar", "foo=a=b", "unk
 (* what a single emitted name must satisfy, and what must be there when the response is assembled.  *)
 SvcSnakes == {s.snake : s \in Services}
 TargetMods == {protos[i].mod : i \in {j \in 1..Len(protos) : protos[j].target}}
-TransportGate(f) == CASE f \in {"grpc.py", "grpc_asyncio.py"} -> HasT("grpc")
+TransportGate(f) == CASE f = "grpc.py" -> HasT("grpc")
+                      [] f = "grpc_asyncio.py" -> HasT("grpc") /\ ~opts.ads
                       [] f \in {"rest.py", "rest_base.py"} -> HasT("rest")
                       [] f = "rest_asyncio.py" -> FALSE          \* only with rest_async_io_enabled (not in this model)
                       [] OTHER -> TRUE
 \* Named deviation (what the code does, not forbidden by the property): for an unversioned package the
 \* templates of the convenience package %name/ and of %name_%version/ denote the same names; the later
 \* rendering replaces the earlier one in the output dictionary, so the response names stay unique.
-Overlay(n) == naming.version = "" /\ Under(URoot, n) /\ Len(n) = Len(URoot) + 1
+\* In the Ads set %version/__init__.py and %version/%sub/__init__.py denote the same name as well.
+Overlay(n) == \/ naming.version = "" /\ Under(URoot, n) /\ Len(n) = Len(URoot) + 1
+              \/ opts.ads /\ n = Root \o <<"__init__.py">>
 Allowed(n) ==
   /\ Normalised(n)
   /\ (n \notin Emitted \/ Overlay(n))
@@ -247,8 +276,8 @@ Allowed(n) ==
         => \E m \in TargetMods : Last(n) = m \o ".py"
   /\ (Under(Root \o <<"services">>, n) /\ Len(n) > Len(Root) + 2) => n[Len(Root) + 2] \in SvcSnakes
   /\ (Under(Root \o <<"services">>, n) /\ Len(n) = Len(Root) + 4 /\ n[Len(Root) + 3] = "transports") => TransportGate(Last(n))
-  /\ (Under(Root \o <<"services">>, n) /\ Len(n) = Len(Root) + 3 /\ Last(n) = "async_client.py") => HasT("grpc")
-  /\ (Under(Root, n) /\ Last(n) = "gapic_metadata.json") => opts.metadata
+  /\ (Under(Root \o <<"services">>, n) /\ Len(n) = Len(Root) + 3 /\ Last(n) = "async_client.py") => (HasT("grpc") /\ ~opts.ads)
+  /\ (Under(Root, n) /\ Last(n) = "gapic_metadata.json") => (opts.metadata /\ ~opts.ads)
 Required == UNION {FamilyFiles(f) : f \in {"root", "metadata", "services_init", "services", "types_init", "types"}}
 
 (* gapic_metadata.json and the keyword fix-up table (C15)                                            *)
@@ -257,6 +286,7 @@ Cap == [unary |-> "Unary", paged |-> "Paged", lro |-> "Lro", sstream |-> "Sstrea
 Rpcs == [j \in 1..Len(req.kinds) |-> [name |-> "M" \o ToString(j - 1) \o Cap[req.kinds[j]],
                                        snake |-> "m" \o ToString(j - 1) \o "_" \o req.kinds[j]]]
         \o (IF req.extra = "kw" THEN <<[name |-> "Import", snake |-> "import_"]>> ELSE <<>>)
+        \o (IF req.extra = "xreq" THEN <<[name |-> "Xcheck", snake |-> "xcheck"]>> ELSE <<>>)
 \* with "internal", only the first RPC of the first service stays public
 IsInternal(si, ri) == req.extra = "internal" /\ ~(si = 1 /\ ri = 1)
 SvcInternal(si) == \E ri \in 1..Len(Rpcs) : IsInternal(si, ri)
@@ -273,19 +303,24 @@ ReqRequired == {"filter"}
 FixupParams == SelectSeq(ReqFieldsDecl, LAMBDA f : f \in ReqRequired) \o SelectSeq(ReqFieldsDecl, LAMBDA f : f \notin ReqRequired)
 \* keyed by the snake-cased RPC name (not the client method name): Import -> "import"
 FixupKey(ri) == IF Rpcs[ri].name = "Import" THEN "import" ELSE Rpcs[ri].snake
-Fixup == IF req.svcs = <<>> THEN {} ELSE { [key |-> FixupKey(ri), params |-> FixupParams] : ri \in 1..Len(Rpcs) }
+\* the dependency-package request of Xcheck: name, payload (a message), note (required) -- every field is a keyword of the call
+DepReqDecl == <<"name", "payload", "note">>
+DepReqRequired == {"note"}
+DepFixupParams == SelectSeq(DepReqDecl, LAMBDA f : f \in DepReqRequired) \o SelectSeq(DepReqDecl, LAMBDA f : f \notin DepReqRequired)
+Fixup == IF req.svcs = <<>> THEN {}
+         ELSE { [key |-> FixupKey(ri), params |-> IF Rpcs[ri].name = "Xcheck" THEN DepFixupParams ELSE FixupParams] : ri \in 1..Len(Rpcs) }
 \* every (service, rpc) exactly once per client kind
 Inv_MetadataOnce == Done => \A s \in Metadata.services : \A c \in s.clients :
                       Cardinality({r.rpc : r \in c.rpcs}) = Cardinality(c.rpcs) /\ Cardinality(c.rpcs) = Len(Rpcs)
 Inv_ClientNamesDistinct == Done => \A s \in Metadata.services :
                       \A c1, c2 \in s.clients : (c1.kind \in {"grpc", "rest"} /\ c2.kind = "grpc-async") => c1.client # c2.client
 
-Clients == UNION {{ClientName(si, FALSE)} \cup (IF HasT("grpc") THEN {ClientName(si, TRUE)} ELSE {}) : si \in 1..Len(req.svcs)}
+Clients == UNION {{ClientName(si, FALSE)} \cup (IF HasT("grpc") /\ ~opts.ads THEN {ClientName(si, TRUE)} ELSE {}) : si \in 1..Len(req.svcs)}
 
 Case == [ req |-> req, opts |-> opts,
           expect |-> [ root |-> Root, types |-> TypesModules, svcpkgs |-> ServicePkgs, transports |-> TransportFiles,
                        clients |-> Clients, registry |-> Registry, default |-> DefaultTransport, pagers |-> Pagers,
-                       metadataJson |-> opts.metadata, metadataKinds |-> MetadataKinds,
+                       metadataJson |-> opts.metadata /\ ~opts.ads, metadataKinds |-> MetadataKinds,
                        snippetMeta |-> opts.snippets /\ Services # {}, sampleKinds |-> SampleKinds,
                        metadata |-> Metadata, fixup |-> Fixup, rpcs |-> Rpcs,
                        strict |-> {n \in Emitted : Under(Root, n)} ] ]
